@@ -101,10 +101,52 @@ theorem no_gossip_without_change (hU : Univ U) {cfg : Cfg} (hcfg : cfg.lit = 0) 
     simp only at hv2
     omega
 
-/-- a message that does not decode (malformed, truncated, unknown codec) leaves the node untouched -/
+/-- a raw message is *malformed* when it does not decode (bad framing / protobuf / snappy, unknown
+codec) or decodes to a pair with an empty key -/
+def Malformed {V R : Type} (dec : R → Option (Msg V)) (raw : R) : Prop :=
+  match dec raw with
+  | none => True
+  | some m => m.key = ""
+
+/-- a malformed message leaves the node untouched -/
 theorem corrupt_noop {V R : Type} [MergeVal V] (dec : R → Option (Msg V)) (cfg : Cfg) (now : Int) (nd : Node V) (raw : R)
-    (h : dec raw = none) : receive dec cfg now nd raw = nd := by
-  unfold receive; rw [h]
+    (h : Malformed dec raw) : receive dec cfg now nd raw = nd := by
+  unfold receive
+  unfold Malformed at h
+  cases hd : dec raw with
+  | none => rfl
+  | some m =>
+    rw [hd] at h
+    simp only
+    unfold notifyMsg; rw [h]; rfl
+
+/-- ... also as a pair inside a full-state message: the malformed pairs are skipped, the others are
+merged as if the malformed ones were not there -/
+theorem corrupt_pairs_noop {V R : Type} [MergeVal V] (dec : R → Option (Msg V)) (cfg : Cfg) (now : Int) (nd : Node V)
+    (raws : List R) (bad : R → Bool) (hbad : ∀ r, bad r = true → Malformed dec r) :
+    receiveState dec cfg now nd raws = receiveState dec cfg now nd (raws.filter fun r => !bad r) := by
+  unfold receiveState
+  induction raws generalizing nd with
+  | nil => rfl
+  | cons r rs ih =>
+    simp only [List.foldl_cons, List.filter_cons]
+    cases hb : bad r with
+    | true => simp only [Bool.not_true, Bool.false_eq_true, if_false]; rw [corrupt_noop dec cfg now nd r (hbad r hb)]; exact ih nd
+    | false => simp only [Bool.not_false, if_true, List.foldl_cons]; exact ih _
+
+/-- a full-state message consisting of malformed pairs only changes nothing -/
+theorem corrupt_state_noop {V R : Type} [MergeVal V] (dec : R → Option (Msg V)) (cfg : Cfg) (now : Int) (nd : Node V)
+    (raws : List R) (h : ∀ r ∈ raws, Malformed dec r) : receiveState dec cfg now nd raws = nd := by
+  unfold receiveState
+  induction raws with
+  | nil => rfl
+  | cons r rs ih =>
+    rw [List.foldl_cons, corrupt_noop dec cfg now nd r (h r (by simp))]
+    exact ih (fun x hx => h x (by simp [hx]))
+
+/-- the decoded view of the full-state path is `mergeRemoteState` -/
+theorem receiveState_decoded {V : Type} [MergeVal V] (cfg : Cfg) (now : Int) (nd : Node V) (ms : List (Msg V)) :
+    receiveState (fun m => some m) cfg now nd ms = mergeRemoteState cfg now nd ms := rfl
 
 theorem corrupt_event_noop {V : Type} [MergeVal V] (cfg : Cfg) (c : Cluster V) (n : Nat) : stepC cfg c (.corrupt n) = c := rfl
 
